@@ -18,8 +18,8 @@ from vuniv import finlang, gen, intuniv, words
 PROPERTY = "C13"
 LEVEL = "exploration"
 RULE = (
-    "case = (first, under every seed, the 40 mined inputs of corpus/c13_context.json on which the equivalence-path verdict depends on the context it is asked from; then) two fresh real searchers (default rule database, atom-verified non-iterative packs) on a "
-    "related pair of word classes and one of the two finder variants; find() is called; judged: no "
+    "case = (first, under every seed, the 40 mined inputs of corpus/c13_context.json on which the equivalence-path verdict depends on the context it is asked from, and the 70 finite-language pairs of corpus/c13_finlang.json; then) two fresh real searchers (default rule database, atom-verified non-iterative packs) on a "
+    "related pair of word classes - or, a fifth of the cases, on a pair of finite languages over {a,b}, each side with its own subset of five strategies and two symmetries - and one of the two finder variants; find() is called; judged: no "
     "exception, and for a returned pair both specifications enumerate their own start class (brute "
     "force to N), pass the C02 structural monitor, and are isomorphic to each other. non-trivial = a "
     "pair was returned with >= 4 rules on each side, or the start label was not its class "
